@@ -71,7 +71,15 @@ def run_case(case, chooser):
     data = FAMILIES[case["family"]] if case.get("family") else pay(n)
     chunks = case["chunks"]
     bk = {"memory": dict(backend="memory"), "slow": dict(backend="slow", delay=0.125),
-          "pathio": dict(backend="pathio"), "async": dict(backend="async")}[case["backend"]]
+          "pathio": dict(backend="pathio"), "async": dict(backend="async"),
+          # a custom backend as the PathIO API allows it: written data reaches the file when it is closed (buffered
+          # file object) and close() itself suspends (an executor job the explorer completes when it chooses)
+          "buffered": dict(backend="memory")}[case["backend"]]
+    if case["backend"] == "buffered":
+        bk["spy"] = backends.SpyControl()
+        bk["spy"].buffered = True
+        bk["spy"].close_job = case.get("close", "job") == "job"
+        bk["spy"].close_delay = 0.5 if case.get("close") == "delay" else 0.0
     skw = {"block_size": b, "wait_future_timeout": 5}
     if case.get("socket_timeout"):
         skw["socket_timeout"] = case["socket_timeout"]
@@ -133,7 +141,9 @@ def run_case(case, chooser):
             except (a.StatusCodeError, ConnectionError) as exc:
                 result["completed"] = False
                 result["error"] = repr(exc)[:200]
-            chooser.active = False
+            # the read-back is explored too when the backend's close() suspends: the completion reply must not
+            # overtake the close
+            chooser.active = case["backend"] == "buffered"
             if result["completed"] or case.get("pause"):
                 if not result["completed"]:
                     # the upload was given up by the server (no completion reply): nothing to read back through c1's eyes
@@ -225,7 +235,7 @@ def _work(item):
                 part.sample({"case": case, "choices": ch.choices}, limit=1)
             for p in res["problems"]:
                 part.violation({"kind": p["kind"], "op": case["op"], "rest": bool(case["k"]), "observer": case.get("observer"),
-                                "backend_suspends": case["backend"] in ("slow", "async")},
+                                "backend_suspends": case["backend"] in ("slow", "async", "buffered")},
                                {"problem": p, "case": case, "deviations": ch.deviations},
                                replay={"case": case, "choices": ch.choices, "kinds": kinds})
                 break
@@ -283,6 +293,11 @@ def grid(tier):
             c = {"op": op, "target": target, "n": 7, "k": k, "b": 3, "chunks": [4, 3], "readsize": 2,
                  "backend": backend, "window": 1 if backend == "slow" else 65536}
             items.append((c, d if backend == "memory" else 1, kinds, 3000 if tier == "quick" else 60000))
+    for op, target, k in (("STOR", "new", 0), ("STOR", "old", 4), ("APPE", "old", 0), ("APPE", "new", 0)):
+        for close in ("job", "delay"):
+            c = {"op": op, "target": target, "n": 7, "k": k, "b": 3, "chunks": [4, 3], "readsize": 2, "backend": "buffered",
+                 "close": close}
+            items.append((c, d, ["early", "order"], 3000 if tier == "quick" else 60000))
     # an upload that stalls for longer than the server's socket_timeout and then goes on: either it fails (no 2xx
     # completion) or what is stored is the whole payload - never a 226 for a prefix
     for backend in ("memory", "pathio"):
@@ -321,7 +336,7 @@ def run(tier, seed, t0):
               "block_sizes": [1, 3] if tier == "quick" else [1, 2, 3, 5, 8192],
               "payload_lengths": "0,1,b-1,b,b+1,2b,2b+1,3b-1 + families all256/crlf/nul/iac/lf-run",
               "offsets": "0, inside, at end, beyond end", "chunkings": "whole, 1-byte, b-1, b+1, all compositions for len<=5",
-              "backends": ["memory", "pathio", "async"] + ([] if tier == "quick" else ["slow"]),
+              "backends": ["memory", "pathio", "async", "slow", "buffered (custom: data lands at close, close() suspends)"],
               "passive": ["epsv", "pasv"], "throttle": ["off", "server read/write", "client read/write"],
               "deviation_bound": 1 if tier == "quick" else 2, "cases": len(items)}
     return report.finish(
